@@ -80,8 +80,14 @@ class Lexer:
         self.last_hint: Optional[Tuple[str, int, int]] = None
         self.comments: list[str] = []
         self.unicode_errors: str = "ignore" if ignore_unicode_errors else "strict"
+        # every lexer has its own keyword table, the typing keywords depend on `typed`
+        self.keywords: Dict[str, TokenType] = {
+            k: v for k, v in RESERVED_KEYWORDS.items() if k not in ("as", "is")
+        }
+        if typed:
+            self.keywords["as"] = TokenType.AS
+            self.keywords["is"] = TokenType.IS
         self.advance()
-        include_typing(typed)
 
     def error(
         self, message: str, line: Optional[int] = None, column: Optional[int] = None
@@ -399,7 +405,7 @@ class Lexer:
 
             if self.current_char in LETTER:
                 name: str = self.get_name()
-                if token_type := RESERVED_KEYWORDS.get(name):
+                if token_type := self.keywords.get(name):
                     return Token(token_type, name, **args)
                 return Token(TokenType.NAME, name, **args)
 
